@@ -327,13 +327,14 @@ Section P.
     { induction sched as [|a sched IH]; intros w Hw; [exact Hw|]. cbn. apply IH. apply j_wstep. exact Hw. }
     destruct (G _ H0) as [[ND' _] _]. exact ND'.
   Qed.
-  (* exactly once, from the inputs alone: distinct published ids are never sent, nor written to a client, twice *)
-  Theorem exactly_once_distinct persistent reqs pubs sched i s :
+  (* exactly once, from the inputs alone: distinct published ids are never sent, nor written to a client, twice
+     (either transport, any retention size) *)
+  Theorem exactly_once_distinct persistent size reqs pubs sched i s :
     NoDup (concat pubs) -> (forall u, In u (concat pubs) -> u < EVB) ->
-    nth_error (h_subs (w_st (wrun (winit persistent 0 reqs pubs) sched))) i = Some s ->
+    nth_error (h_subs (w_st (wrun (winit persistent size reqs pubs) sched))) i = Some s ->
     NoDup (hs_sent s) /\ NoDup (hs_recvd s).
   Proof.
-    intros ND Hlt E. apply (exactly_once mt cap tracking persistent reqs pubs sched i s E).
+    intros ND Hlt E. apply (exactly_once_retention mt cap tracking persistent size reqs pubs sched i s E).
     apply committed_distinct; assumption.
   Qed.
 End P.
